@@ -219,7 +219,7 @@ impl Prop for C10 {
                     let c = Case { faults: vec![], layout: layout.into(), order: order.into(), ts: false, names: String::new(), extras };
                     let o = compile_rasn(&sources(&c), &Cfg::default());
                     if o.ok_clean().is_none() {
-                        return Err(format!("fault-free base ({layout},{order},extras={extras}) does not compile cleanly: {}", o.brief()));
+                        return Err(format!("COMPILER: fault-free base ({layout},{order},extras={extras}) does not compile cleanly: {}", o.brief()));
                     }
                 }
             }
